@@ -549,12 +549,15 @@ Proof.
   apply build_answers. destruct (decompile_inv _ _ Eq) as (nr & ->). apply pos_shifts_dec_loop.
 Qed.
 
-Theorem search_exits ens expr p add dbl : ens_ok ens -> exists e, search ens expr p add dbl = Ok e.
+(* the ensemble is consulted only at the value of the expression *)
+Theorem search_exits_at ens expr p add dbl :
+  (forall n, Calc.eval expr = Ok n -> 1 <= n -> ens n <> [] /\ Forall result_ok (ens n)) ->
+  exists e, search ens expr p add dbl = Ok e.
 Proof.
   intros Hens. unfold search. destruct (p <? 1) eqn:Ep; [eauto|]. apply Z.ltb_ge in Ep.
   destruct (eval_ok_or_err expr) as [[n En]|[c En]]; rewrite En; cbn [or_fail]; [|eauto].
   destruct (n <? 1) eqn:En1; [eauto|]. apply Z.ltb_ge in En1.
-  destruct (Hens n En1) as [Hne Hf]. cbv zeta.
+  destruct (Hens n En En1) as [Hne Hf]. cbv zeta.
   rewrite par_execute_ok by (destruct (ens n); [congruence|cbn [length]; lia]). cbn [obind].
   pose proof (pick_best_shape dbl add (ens n) 0 0 (FInf false) Hf) as Hp.
   destruct (pick_best dbl add 0 (ens n) 0 (FInf false)) as [best|c|c|]; cbn [or_fail];
@@ -566,6 +569,9 @@ Proof.
   destruct (decompile_build_answers prog Hw) as (q & -> & Hb'). cbn [or_fail].
   destruct (build q); cbn [or_fail answers] in *; eauto; tauto.
 Qed.
+
+Theorem search_exits ens expr p add dbl : ens_ok ens -> exists e, search ens expr p add dbl = Ok e.
+Proof. intros Hens. apply search_exits_at. intros n _ Hn. exact (Hens n Hn). Qed.
 
 (* ---------------------------------------------------------------- the command line *)
 Lemma or_fail_exits {A} (o : outcome A) : answers o -> exists e, or_fail o (fun _ => Ok Exit0) = Ok e.
